@@ -90,7 +90,7 @@ def _max_batch(n, r0, dr, nswp):
     return r * r * max(n)
 
 
-def h_func_none(ctx, n, r0, nswp, with_e=False, with_vld=False):
+def h_func_none(ctx, n, r0, nswp, with_e=False, with_vld=False, with_cache=False):
     """Objective returns None at its k-th call (symbolic k)."""
     k = ctx.integer('k')
     ctx.assume(ctx.ge(k, 1))
@@ -108,10 +108,13 @@ def h_func_none(ctx, n, r0, nswp, with_e=False, with_vld=False):
         yv = vec(ctx, 'yv', 2)
         ctx.assume(ctx.gt(yv[0], 0))
         kw.update({'I_vld': Iv, 'y_vld': yv})
+    cache = {} if with_cache else None
     with stubs_installed(ctx, 'first'):
-        Y = teneva.cross(orc, Y0, nswp=nswp, dr_min=0, dr_max=0, info=info, **kw)
+        Y = teneva.cross(orc, Y0, nswp=nswp, dr_min=0, dr_max=0, info=info, cache=cache, **kw)
     ctx.claim('well_formed_same_shape', well_formed(Y, n))
     ctx.claim('finite', finite(ctx, Y))
+    if with_cache:
+        ctx.claim('info_m_is_cache_size', info['m'] == len(cache))
     if with_vld:
         d2 = sum(((ref_get(Y, tuple(i)) - yv[j]) ** 2 for j, i in enumerate(Iv)), 0)
         ctx.claim('e_vld_is_error_of_returned_tensor', ctx.eq(info['e_vld'] * info['e_vld'] * sumsq(yv), d2))
@@ -142,15 +145,23 @@ def h_callback(ctx, n, r0, nswp):
         ctx.all_([info['stop'] == 'nswp', ctx.gt(s, nswp), info['nswp'] == nswp])]))
 
 
-def h_thresholds(ctx, n, r0):
-    """Symbolic thresholds e / e_vld (values of info['e'] arbitrary, e_vld real)."""
+def h_thresholds(ctx, n, r0, with_vld=False):
+    """Symbolic thresholds e / e_vld (values of info['e'] arbitrary, e_vld real).
+    with_vld: validation data given without a validation threshold (it is
+    reported, but it is not a stop criterion)."""
     e = ctx.real('e')
     ctx.assume(ctx.gt(e, 0))
     orc = Oracle(ctx, fresh=True, n=n)
     Y0 = simple_Y0(n, r0)
     info = {}
+    kw = {}
+    if with_vld:
+        from symtt.ref import multi_indices
+        yv = vec(ctx, 'yv', 2)
+        ctx.assume(ctx.gt(yv[0], 0))
+        kw = {'I_vld': np.array(multi_indices(n)[:2]), 'y_vld': yv}
     with stubs_installed(ctx, 'first') as st:
-        Y = teneva.cross(orc, Y0, e=e, nswp=2, dr_min=0, dr_max=0, info=info)
+        Y = teneva.cross(orc, Y0, e=e, nswp=2, dr_min=0, dr_max=0, info=info, **kw)
     ctx.claim('well_formed_same_shape', well_formed(Y, n))
     ctx.claim('documented_stop', info['stop'] in ('e', 'nswp'))
     if info['stop'] == 'e':
@@ -265,6 +276,9 @@ def instances(tier):
     for n, r0, nswp in [([2, 2], 1, 2)] + ([] if quick else [([2, 2, 2], 1, 2), ([2, 2], 1, 3)]):
         out.append({'func': 'h_callback', 'params': {'n': n, 'r0': r0, 'nswp': nswp}, 'opts': G})
     out.append({'func': 'h_thresholds', 'params': {'n': [2, 2], 'r0': 1}, 'opts': G})
+    out.append({'func': 'h_thresholds', 'params': {'n': [2, 2], 'r0': 1, 'with_vld': True}, 'opts': G})
+    out.append({'func': 'h_func_none', 'params': {'n': [2, 2], 'r0': 1, 'nswp': 2, 'with_cache': True}, 'opts': G})
+    out.append({'func': 'h_func_none', 'params': {'n': [2, 2, 2], 'r0': 1, 'nswp': 1, 'with_cache': True}, 'opts': G})
     out.append({'func': 'h_missing_criteria', 'params': {'n': [2, 2]}, 'opts': G})
     out.append({'func': 'h_default_info', 'params': {'n': [2, 2], 'r0': 1}, 'opts': G})
     return out
